@@ -2,9 +2,9 @@
 # benigntest.sh <patch> <ids...>: applies a behaviour-preserving change to /repo, runs the checks, restores /repo.
 patch="$1"; shift
 ROOT="$(cd "$(dirname "$0")/.." && pwd)"
-[ -n "$(git -C /repo status --porcelain)" ] && { echo "/repo not clean"; exit 2; }
-git -C /repo apply "$patch" || { echo "patch does not apply"; exit 2; }
+[ -n "$(git -C "${VERIF_REPO:-/repo}" status --porcelain)" ] && { echo "/repo not clean"; exit 2; }
+git -C "${VERIF_REPO:-/repo}" apply "$patch" || { echo "patch does not apply"; exit 2; }
 "$ROOT/tools/runall.sh" quick "$@"; r=$?
-git -C /repo checkout -q -- .
-git -C /repo clean -fdq 2>/dev/null
+git -C "${VERIF_REPO:-/repo}" checkout -q -- .
+git -C "${VERIF_REPO:-/repo}" clean -fdq 2>/dev/null
 exit $r
